@@ -103,8 +103,8 @@ def measure(D, mode, opts, seed):
 def free_trace(job, res):
     """(config record, steps) of one E1 execution for TLC validation, or None if not judgeable."""
     im = res.get("impl")
-    if not im or "error" in im or res["n_init"] is None or not res["probes"]:
-        return None
+    if not im or "error" in im or res["n_init"] is None or not res["probes"] or job.get("no_trace"):
+        return None   # (no_trace: the job runs a documented switch the controller model does not describe)
     D = job["D"]
     uo = job.get("opts") or {}
     mfe = int(uo.get("max_fun_evals", 500 * D))
@@ -299,6 +299,11 @@ def run_loop(ctx, pid):
             for o in ({"sloppy_improvement": False}, {"tol_improvement": 0.5}, {"tol_improvement": 2.0}, {"forcing_exponent": 1.0}, {"forcing_exponent": 2.0},
                       {"sloppy_improvement": False, "accelerate_mesh_steps": 1})]
     st = explore(tie, ["ans"], 1, sink, stats=st, name="det/threshold-ties", alts={"ans": ["T"], "noise": [], "fit": [], "pred": []})
+    if pid == "C13":
+        # search-triggered mesh expansion (documented option): the mesh may grow outside a poll, but never beyond the cap
+        sx = [dict(_e1job(D, "det", {"search_mesh_expand": e_, "tol_mesh": 2.0**-4, "max_fun_evals": 50 + 10 * D}, seed, base=b), monitors=["C13"], no_trace=True)
+              for D in (1, 2) for e_ in (1, 2) for b in ("S", "S2", "S3", "S4", "I")]
+        st = explore(sx, ["ans"], 0, sink, stats=st, name="det/search-mesh-expand")
     st = explore([_e1job(1, "det", {"tol_mesh": 2.0**-3}, seed)], ["ans"], 2, sink, stats=st, name="det/b2-window",
                  pos_ok=lambda kind, pos, res: pos < (10 if q else 16))
     # noisy modes: budget windows above the initial design, noise scripts
